@@ -230,7 +230,7 @@ class NetWorld(World):
             op["how"] = r.choice(["&", "|", "&=", "|=", "TN", "TNv", "atn", "atn_nocheck", "combine"])
             op["twice"] = r.random() < kn["p_same_object_twice"]
         elif kind == "copy":
-            op["how"] = r.choice(["copy", "copy_v", "copy_deep", "TN", "TNv"])
+            op["how"] = r.choice(["copy", "copy_v", "copy_deep", "TN", "TNv", "view_as", "view_like"])
         elif kind == "select":
             op["how"] = r.choice(["select", "select_v", "select_any", "neighbors", "getitem", "select_tids"])
             op["which"] = r.choice(WHICH)
@@ -466,6 +466,8 @@ class NetWorld(World):
             "copy_deep": lambda: a.copy(deep=True),
             "TN": lambda: TN(a),
             "TNv": lambda: TN(a, virtual=True),
+            "view_as": lambda: a.view_as(TN),
+            "view_like": lambda: a.view_like(self.nets[op["b"] % len(self.nets)]),
         }
         res = self._try(thunks[how])
         if res is not None:
@@ -877,7 +879,18 @@ class NetWorld(World):
 
     def _op_mangle(self, op):
         tn = self._net(op)
-        self._try(lambda: tn.mangle_inner_())
+        mode = op["b"] % 3
+        if mode == 1:
+            # a suffix keeps the first letter, hence the canonical size
+            self._try(lambda: tn.mangle_inner_(append="x"))
+        elif mode == 2:
+            inner = sorted(tn._inner_inds)
+            if not inner:
+                raise Skip()
+            some = [ix for n, ix in enumerate(inner) if (op["a"] >> (n % 16)) & 1] or inner[:1]
+            self._try(lambda: tn.mangle_inner_(which=some))
+        else:
+            self._try(lambda: tn.mangle_inner_())
 
     def _op_transpose(self, op):
         t = self._some_tensor(op)
@@ -1019,7 +1032,18 @@ class NetWorld(World):
             ix = inds[op["a"] % len(inds)]
             res = self._try(lambda: tn.isel({ix: 0}, inplace=inplace))
         elif what == "squeeze":
-            res = self._try(lambda: tn.squeeze(inplace=inplace))
+            sq = op["b"] % 4
+            if sq == 1 and not (hyper or repeated):
+                res = self._try(lambda: tn.squeeze(fuse=True, inplace=inplace))
+            elif sq == 2:
+                ones = sorted(ix for ix in tn.ind_map if tn.ind_size(ix) == 1)
+                keep = ones[: 1 + op["a"] % 2]
+                res = self._try(lambda: tn.squeeze(exclude=keep, inplace=inplace))
+            elif sq == 3:
+                ones = sorted(ix for ix in tn.ind_map if tn.ind_size(ix) == 1)
+                res = self._try(lambda: tn.squeeze(include=ones[: 1 + op["a"] % 2], inplace=inplace))
+            else:
+                res = self._try(lambda: tn.squeeze(inplace=inplace))
         elif what == "rank_simplify":
             if hyper or repeated:
                 raise Skip()
